@@ -7,6 +7,8 @@ SUBSETS = {
     "C02": {"check_rw", "check_chain_d0", "check_chain_d3", "check_chain_d6", "check_wide", "batch_chain_d0", "batch_chain_d6", "grpc_check_chain_d0"},
     "C08": {"check_rw", "check_chain_d0", "check_m", "batch_chain_d0", "batch_chain_d6", "grpc_check_chain_d0", "list_n", "list_m"},
     "C09": {"expand_d0", "expand_d3", "expand_d6", "grpc_expand_d0", "check_chain_d0"},
+    # every request carries a deadline: one that has not returned 15 s after its deadline is a reply no reference server gives
+    "C15": {"check_rw", "check_chain_d0", "check_m", "check_wide", "batch_chain_d0", "grpc_check_chain_d0"},
 }
 
 
@@ -29,21 +31,24 @@ def reconf(ck, binary, tier, pid):
     for h in sorted(g.lines, key=lambda h: h["run"]):
         # every third history reconfigures the long-lived server by replacing its watched configuration FILE (limits and the list
         # of namespace names can be written there; the content of a namespace cannot, so it stays "plain" in those histories)
-        viafile = h["run"] % 3 == 0
+        # ... and every third one has its namespaces in a watched OPL file named by that configuration file: changes of the
+        # namespace list and of the content of n rewrite the OPL file
+        viafile = h["run"] % 3 in (0, 1)
+        viaopl = h["run"] % 3 == 1
         st = []
         for s in h["steps"]:
-            if viafile:
+            if viafile and not viaopl:
                 if s["op"] == "set" and s["key"] == "content":
                     continue
                 s = dict(s, content="plain")
             if s["op"] == "set" or s["req"] in keep:
                 st.append(s)
         if any(s["op"] == "req" for s in st):
-            hs.append({"run": h["run"], "steps": st, "file": viafile})
+            hs.append({"run": h["run"], "steps": st, "file": viafile, "opl": viaopl})
     if not hs:
         raise Inconclusive("Reconf.tla generated no histories")
     recs = {x["h"]: x for x in run_harness(binary, "reconf", {"histories": hs}, shards=8)}
-    nreq = after = viafile = 0
+    nreq = after = viafile = viaopl = 0
     for i, h in enumerate(hs):
         ob = recs.get(i)
         if ob is None:
@@ -52,6 +57,8 @@ def reconf(ck, binary, tier, pid):
             raise Inconclusive("the configuration file change of history %d (step %d) was not picked up within 15 s" % (h["run"], ob["step"]))
         if ob.get("file"):
             viafile += 1
+        if ob.get("opl"):
+            viaopl += 1
         nreq += ob["requests"]
         after += ob["after_change"]
         ck.evaluations += ob["requests"]
@@ -64,5 +71,6 @@ def reconf(ck, binary, tier, pid):
     ck.extra["reconfiguration_histories"] = len(hs)
     ck.extra["requests_after_a_configuration_change"] = after
     ck.extra["histories_reconfigured_through_the_watched_file"] = viafile
+    ck.extra["of_which_with_namespaces_in_a_watched_opl_file"] = viaopl
     if after == 0:
         raise Inconclusive("no request followed a configuration change")
